@@ -380,9 +380,13 @@ impl State {
 
     fn build_from(&mut self, s: Xstr, path: Option<Xstr>, mode: ContextMode) -> Xresult {
         if self.run_failed {
-            // code that stopped on a run-time error is abandoned, never resumed by a later source
+            // code that stopped on a run-time error is abandoned, never resumed by a later source;
+            // the call frames, loop entries and builder marks it left behind go with it
             self.run_failed = false;
             self.ctx.ip = self.code_origin();
+            self.return_stack.truncate(self.ctx.rs_len);
+            self.loops.truncate(self.ctx.ls_len);
+            self.special.truncate(self.ctx.ss_ptr);
         }
         let mark = self.build_mark();
         let built = self
@@ -443,7 +447,8 @@ impl State {
         self.flow_stack.truncate(mark.fs_len);
         self.ctx = mark.ctx;
         self.ctx.ip = self.code_origin();
-        self.run_failed = false;
+        // what the failed code left on the control stacks is dropped when the next source arrives
+        self.run_failed = true;
     }
 
     pub fn eval_file(&mut self, path: Xstr) -> Xresult {
